@@ -188,7 +188,7 @@ STEP_UNWINDSET = ["set_splay.0:4", "set_first.0:4", "set_clear.0:4", "set_dispos
                   "iauth_xquery_check_password.0:14", "iauth_xquery_check_password.1:14",
                   "iauth_xquery_check_password.2:14", "iauth_xquery_check_password.3:14",
                   "strtoul.0:8", "strtoul.1:8", "strtol.0:8", "strtol.1:8", "strtol.2:8",
-                  "iauth_xquery_set_account.0:70", "collect.0:48", "collect.1:48"]
+                  "iauth_xquery_set_account.0:70", "iauth_xquery_set_account.1:70", "collect.0:48", "collect.1:48"]
 
 
 def step_job(name, check, nreq=2, nsvc=2, events=STEP_EVENTS, extra=None):
@@ -217,25 +217,112 @@ RECIPES["C04"] = {
 # Properties without a claimed check, with the reason (kept current by hand).
 NOT_APPLICABLE = {}
 
+IAUTH_NOMISC = ["env/misc_stub.c"] + [x for x in IAUTH if x != "repo:modules/iauth_misc.c"]
 LINE_UW = STEP_UNWINDSET + ["iauth_read.0:3", "iauth_read.1:20", "iauth_read.2:12", "iauth_read.3:12", "iauth_read.4:12",
-                            "known_cmd.0:20", "harness.0:12", "harness.1:20", "harness.2:12", "memcpy.0:100"]
+                            "known_cmd.0:20", "harness.0:100", "harness.1:100", "harness.2:100", "memcpy.0:100"]
 
 
-def line_job(name, mode, lens, extra=None, nreq=1):
-    d = {"NREQ": nreq, "NSVC": 1, mode: None, "VP_LINE_ALLOC": 64}
-    if extra:
-        d.update(extra)
-    return {"name": name, "src": ["C08_line.c"] + IAUTH, "defs": {"all": d},
-            "splits": lens, "unwind": 800, "unwindset": LINE_UW, "fp_restrict": FP_IAUTH,
-            "flags": ["--sat-solver", "cadical"], "timeout": 900}
+def _line_uw(d):
+    L = int(d.get("VP_LEN", 1)) + 4
+    its = ["irc_pton.%d:%d" % (i, max(L, 9) if i in (4, 5) else L) for i in range(7)] + ["irc_pton_ip4.%d:%d" % (i, L) for i in range(5)]
+    its += ["irc_ntop.%d:9" % i for i in range(10)]
+    its += ["vpm_num.%d:24" % i for i in range(4)]
+    return ",".join(its)
+
+
+def _line_splits(thorough):
+    live = ["7", "7 c", "7 c a", "7 c :a a", "7 c a a a a a a a a a a a a a a a a a"]
+    other = ["dd", "-1 c a a a", "3 c a a a a a"]
+    if thorough:
+        live += ["7 ", "7 c ", "7 c aa a", "7 c a :", "7  c\\ta  a", "7 c a a a a", "7 ca a", ":7 c a", "7 :c"]
+        other += ["d c a", "-1 c", "-1", "c", "007 c a", "7x c a"]
+        live += ["7 c a a", "7 c a a a", "7 c aaaa aaaa", "7 c a a a a a a a a a a a a a a a a", "7 c a a a a a a a a a a a a a a a :a a",
+                 "7 c aaaaaaaaaaaaaaaaaaaaaaaaaaaaaaaaaaaaaaaaaaaaaaaaaaaaaaaaaaaaaaaaaaaaaa"]
+        other += ["-1 c a a a a", "-1 c a a", "+7 c a", " 7 c a", "99999999999 c a"]
+    out = []
+    for i, t in enumerate(live):
+        d = {"_name": "live%02d" % i, "VP_TMPL": '"%s"' % t}
+        if t.startswith("7 ") or t == "7" or t.startswith("7  "):
+            d["VP_ID_LIVE"] = None
+        out.append(d)
+    for i, t in enumerate(other):
+        d = {"_name": "other%02d" % i, "VP_TMPL": '"%s"' % t}
+        if t[0] == "3":
+            d["VP_ID_UNKNOWN"] = None
+        out.append(d)
+    return out
 
 
 RECIPES["C08"] = {
-    "units": ["modules/iauth_core.c", "modules/iauth_xquery.c", "modules/iauth_class.c", "modules/iauth_misc.c", "src/set.c"],
+    "units": ["modules/iauth_core.c", "modules/iauth_xquery.c", "modules/iauth_class.c", "src/set.c"],
     "jobs": [
-        line_job("line_any", "L_ANY", {"quick": [{"VP_LEN": n} for n in (1, 2, 3, 4)], "thorough": [{"VP_LEN": n} for n in range(1, 8)]}),
-        line_job("line_id", "L_ID", {"quick": [{"VP_LEN": n} for n in (1, 2, 3, 5)], "thorough": [{"VP_LEN": n} for n in range(1, 9)]}),
-        line_job("line_args", "L_ARGS", {"all": [{}]}),
-        line_job("line_eof", "L_EOF", {"all": [{}]}),
+        {"name": "line", "src": ["C08_line.c"] + IAUTH_NOMISC, "defs": {"all": {"NREQ": 1, "NSVC": 1, "VP_LINE_ALLOC": 96}},
+         "splits": {"quick": _line_splits(False), "thorough": _line_splits(True)},
+         "unwind": 800, "unwindset": LINE_UW, "fp_restrict": FP_IAUTH, "flags": ["--sat-solver", "cadical", "--max-field-sensitivity-array-size", "100"], "timeout": 900},
+        {"name": "eof", "src": ["C08_line.c"] + IAUTH_NOMISC, "defs": {"all": {"NREQ": 1, "NSVC": 1, "VP_LINE_ALLOC": 96, "L_EOF": None}},
+         "splits": {"all": [{}]},
+         "unwind": 800, "unwindset": LINE_UW, "fp_restrict": FP_IAUTH, "flags": ["--sat-solver", "cadical"], "timeout": 900},
+    ],
+}
+
+import sys as _sys, os as _os
+_sys.path.insert(0, _os.path.dirname(_os.path.abspath(__file__)))
+import gen_formats as _gen_formats
+
+
+def _fmt_job_splits():
+    # the number of format literals is read from /repo at run time
+    import tempfile
+    d = tempfile.mkdtemp(prefix="vpfmt")
+    try:
+        n = _gen_formats.gen(_os.environ.get("VP_REPO", "/repo"), d)
+    finally:
+        import shutil
+        shutil.rmtree(d, ignore_errors=True)
+    return [{"_name": "f%02d" % i, "VP_WHICH": i} for i in range(n)]
+
+
+RECIPES["C09"] = {
+    "units": ["modules/iauth_core.c"],
+    "jobs": [
+        {"name": "fmt", "src": ["C09_fmt.c"] + IAUTH, "gen": _gen_formats.gen,
+         "defs": {"quick": {"LSTR": 2, "LADDR": 3}, "thorough": {"LSTR": 5, "LADDR": 15}},
+         "splits": {"all": _fmt_job_splits()},
+         "unwind": 210, "unwindset": ["vpm_num.0:22", "vpm_num.1:24", "vpm_num.2:24", "vpm_num.3:24"],
+         "timeout": 600},
+        {"name": "fmt_long", "src": ["C09_fmt.c"] + IAUTH, "gen": _gen_formats.gen,
+         "defs": {"all": {"LSTR": 2, "LADDR": 3, "LONG": None}},
+         "splits": {"all": [{"_name": "k", "VP_WHICH": "FMT_INDEX_KILL"}, {"_name": "X", "VP_WHICH": "FMT_INDEX_XQUERY"}]},
+         "unwind": 2300, "unwindset": ["vpm_num.0:22", "vpm_num.1:24", "vpm_num.2:24", "vpm_num.3:24"],
+         "timeout": 900},
+    ],
+}
+
+FP_MODULE = {
+    "set_splay.function_pointer_call.1": _CMPS, "set_splay.function_pointer_call.2": _CMPS, "set_splay.function_pointer_call.3": _CMPS,
+    "set_dispose_node.function_pointer_call.1": ["module_cleanup"],
+    "module_load.function_pointer_call.1": ["stub_ctor"],
+    "module_dfs.function_pointer_call.1": ["stub_post"],
+    "module_cleanup.function_pointer_call.1": ["stub_dtor_0", "stub_dtor_1", "stub_dtor_2", "stub_dtor_3"],
+    "log_message.function_pointer_call.1": ["at_fatal"],
+    "call_exit_funcs.function_pointer_call.1": ["module_clean"],
+}
+
+
+def _listings(m, thorough):
+    ls = [[0], [m - 1], [1, 0]] if not thorough else [[0], [1], [m - 1], [1, 0], [m - 1, 0], [0, 1, 2]]
+    return [{"_name": "l" + "".join(map(str, l)), "VP_LIST": ",".join(map(str, l))} for l in ls]
+
+
+RECIPES["C20"] = {
+    "units": ["src/module.c", "src/set.c", "src/common.c"],
+    "jobs": [
+        {"name": "graph", "src": ["C20_graph.c", "tu/module_tu.c", "repo:src/set.c", "repo:src/common.c", "repo:src/bitset.c", "env/core_env.c", "env/libc_models.c"],
+         "defs": {"all": {"VP_HAVE_MODULE": None}, "quick": {"M": 3}, "thorough": {"M": 4}},
+         "splits": {"quick": _listings(3, False), "thorough": _listings(4, True)},
+         "unwind": 12, "unwindset": ["set_splay.0:6", "module_load:6", "module_depends:6", "stub_ctor:6", "module_dfs:6",
+                                     "set_dispose_node:3", "module_cleanup:3", "set_insert:2", "module_get:3", "set_remove:3", "strlen.0:8", "strcpy.0:8", "strcmp.0:20", "strcasecmp.0:8",
+                                     "memcpy.0:80"],
+         "fp_restrict": FP_MODULE, "timeout": 900},
     ],
 }
